@@ -423,6 +423,31 @@ def rule_R8resize_none(text, applied):
     return text
 
 
+def rule_R13(text, applied, name=None):
+    """havoc of a local: `let NAME = EXPR;` -> `let NAME = vhavoc();` (over-approximation; EXPR lies
+    outside the subset and NAME's value is mentioned by no contract).  Panics inside EXPR are not covered."""
+    m_text = mask(text)
+    ms = list(re.finditer(r"\blet\s+(mut\s+)?" + re.escape(name) + r"\b([^=;]*)=", m_text))
+    if len(ms) != 1:
+        raise ExtractError(f"R13: `let {name} =` found {len(ms)} times (lost anchor)")
+    m = ms[0]
+    # end of statement: first `;` at bracket depth 0
+    depth, k = 0, m.end()
+    while k < len(m_text):
+        ch = m_text[k]
+        if ch in "([{":
+            depth += 1
+        elif ch in ")]}":
+            depth -= 1
+        elif ch == ";" and depth == 0:
+            break
+        k += 1
+    old = text[m.end():k]
+    text = text[:m.end()] + _keep_newlines(old, " vhavoc()") + text[k:]
+    applied.append(f"R13({name}: {' '.join(old.split())[:80]})")
+    return text
+
+
 def rule_const(text, applied):
     """`const fn` -> `fn` (const-ness is irrelevant to behaviour)."""
     t, n = _sub_masked(text, r"\bconst\s+(?=fn\b)", lambda m, s: "")
@@ -431,7 +456,7 @@ def rule_const(text, applied):
 
 RULES = {
     "R1": rule_R1, "R2": rule_R2, "R3": rule_R3, "R4": rule_R4, "R5": rule_R5,
-    "R8max": rule_R8max, "R8cmpmax": rule_R8cmpmax, "R8resize_none": rule_R8resize_none,
+    "R8max": rule_R8max, "R8cmpmax": rule_R8cmpmax, "R8resize_none": rule_R8resize_none, "R13": rule_R13,
 }
 ALWAYS = [rule_vis, rule_tracing, rule_const]
 
@@ -531,9 +556,10 @@ def build_fn(src: Source, selector, opts, sections, emitter: Emitter, unit_rules
             applied.append(f"SelfItem({tm.group(1).strip()})x{n_}")
             kind = "inherent"
             continue
-        if rn not in RULES:
+        rname, _, rarg = rn.partition(":")
+        if rname not in RULES:
             raise ExtractError(f"unknown rule {rn}")
-        text = RULES[rn](text, applied)
+        text = RULES[rname](text, applied, rarg) if rarg else RULES[rname](text, applied)
     if text.count("\n") != raw.count("\n"):
         raise ExtractError(f"{selector}: rewrite changed the line count")
 
